@@ -42,7 +42,7 @@ Proof.
                  (seqn (length (s_tasks st))) = []) as F.
   { apply filter_nil_iff. intros t _. destruct (nth_error (s_tasks st) t) as [tk|] eqn:Hn; [|reflexivity].
     rewrite (T tk (nth_error_In _ _ Hn)). reflexivity. }
-  rewrite F. rewrite P. rewrite andb_false_r.
+  rewrite F. rewrite P. cbn [negb andb]. rewrite andb_false_r.
   match goal with |- context [match ?x with _ => _ end] => destruct x end; reflexivity.
 Qed.
 
@@ -52,7 +52,7 @@ Theorem replan_plan_pending s id i k st :
   should_skip st = false -> s_mutex st = None -> s_choice st = None ->
   exists claimed planned,
     h_commits (start_if_ready s id i k st false) =
-      [[OClaims (w_claims s); OPut i claimed]; [OPut i planned; OMark id] ++ c_pushes (first_msgs i st) ++ []]
+      [[OClaims (w_claims s); OPut i claimed]; OPut i planned :: map OAdd (new_before s i st) ++ OMark id :: c_pushes (first_msgs s i st) ++ []]
     /\ s_plan_pending planned = false /\ s_ctx planned = planned_ctx s st /\ s_status planned = RUNNING.
 Proof.
   intros E P B Sk M C. unfold start_if_ready. rewrite E, P. simpl.
@@ -70,7 +70,7 @@ Theorem replan_choice_claimant s id i k st g :
   exists claimed planned,
     h_commits (start_if_ready s id i k st false) =
       [[OClaims (w_claims s); OPut i claimed]] ++ map (fun j => c_push (MCancelStage j)) (siblings_not_started s i g) ++
-      [[OPut i planned; OMark id] ++ c_pushes (first_msgs i st) ++ []]
+      [OPut i planned :: map OAdd (new_before s i st) ++ OMark id :: c_pushes (first_msgs s i st) ++ []]
     /\ s_plan_pending planned = false /\ s_ctx planned = planned_ctx s st /\ s_status planned = RUNNING
     /\ ~ In i (siblings_not_started s i g).
 Proof.
